@@ -10,7 +10,8 @@
      * `self.x = ..` outside a function body, an augmented assignment to a name that is not bound to a data value
      * a binding statement in an `else:`/`except`/`finally:` suite or in the body of an `if` that is false at import
        time (pydoctor walks `.body` suites only: outside the agreed subset, see C03_orelse_not_walked_observation)
-     * a method assigning `self.a` while `a` is bound to a property in the class body so far
+     * (strict) a method assigning `self.a` while `a` is bound to a property in the class body so far
+     * (strict) a base class named ExceptionGroup, BaseExceptionGroup or EncodingWarning
      * decorators other than one of staticmethod/classmethod/property (class bodies only) plus transparent ones
      * an import or a loop variable re-using a name that is bound to a definition; a base class that is not a class
        bound in the namespace executing the class statement and not a builtin class.
@@ -222,17 +223,24 @@ Definition bind_aux (n : name) (e : env) : option env :=
   | Some _ => None
   end.
 
-Definition base_exc_py (e : env) (b : name) : option bool :=
+(* the builtin exception classes added in Python 3.10 / 3.11 (EncodingWarning; ExceptionGroup, BaseExceptionGroup):
+   the strict subset excludes them as base classes (pydoctor's table lacks them, see C03_exception_table_refuted) *)
+Definition py_new_exceptions : list name := [
+    [69;120;99;101;112;116;105;111;110;71;114;111;117;112];
+    [66;97;115;101;69;120;99;101;112;116;105;111;110;71;114;111;117;112];
+    [69;110;99;111;100;105;110;103;87;97;114;110;105;110;103]]%N.
+
+Definition base_exc_py (strict : bool) (e : env) (b : name) : option bool :=
   match plookup b e with
   | Some (VClass exc _ _) => Some exc
   | Some _ => None
-  | None => py_builtin_class b
+  | None => if strict && mem b py_new_exceptions then None else py_builtin_class b
   end.
 
-Fixpoint bases_exc (e : env) (bs : list name) : option bool :=
+Fixpoint bases_exc (strict : bool) (e : env) (bs : list name) : option bool :=
   match bs with
   | [] => Some false
-  | b :: r => match base_exc_py e b, bases_exc e r with
+  | b :: r => match base_exc_py strict e b, bases_exc strict e r with
               | Some x, Some y => Some (x || y)
               | _, _ => None
               end
@@ -302,7 +310,7 @@ Fixpoint py_stmt (strict : bool) (x : stmt) (sc : pscope) (e : env) {struct x} :
       | None => None
       end
   | Class nm bases body =>
-      match bases_exc e bases, ofold (fun y e' => py_stmt strict y PClass e') body [] with
+      match bases_exc strict e bases, ofold (fun y e' => py_stmt strict y PClass e') body [] with
       | Some exc, Some ns => Some (bind nm (VClass exc (docstring_of body) ns) e)
       | _, _ => None
       end
